@@ -78,6 +78,10 @@ impl<'a> Gen<'a> {
         if depth >= self.max_depth {
             return 0;
         }
+        if depth == 0 && rng.chance(1, 400) {
+            // a long collection: hundreds of (often empty) inner values in one stream
+            return *rng.pick(&[300usize, 700, 1000]);
+        }
         if depth == 0 && rng.chance(1, 40) {
             // lengths whose zig-zag count needs two bytes, and the length of the long arrays
             return *rng.pick(&[63usize, 64, 65, 70]);
